@@ -16,7 +16,7 @@ import "sort"
 
 type vTok struct {
 	lit  string
-	kind byte // 0 literal, 'K' target key, 'S' symbolic string, 'I' integer, 'T' time integer
+	kind byte // 0 literal, 'K' target key, 'S' symbolic string, 'I' integer, 'T' time integer, 'F' floating point
 }
 
 // commands that are exercised by their own harnesses (blocking, session,
@@ -72,7 +72,7 @@ func vL3Value(a *redisArg, keyNo *int) []vTok {
 	case "unix-time":
 		return []vTok{{kind: 'T'}}
 	case "double":
-		return []vTok{{lit: "1.5"}}
+		return []vTok{{kind: 'F'}}
 	case "pattern":
 		return []vTok{{lit: "k*"}}
 	case "string":
@@ -301,6 +301,8 @@ func vL3(mon int) {
 			args[i] = vStringN("s", 1)
 		case 'T':
 			args[i] = vL2TimeValues[vChoice("t", len(vL2TimeValues))]
+		case 'F':
+			args[i] = vL2Floats[vChoice("f", len(vL2Floats))]
 		case 'I':
 			d := vDecimal("i")
 			n := vDecimalOf(d)
@@ -317,7 +319,8 @@ func vL3(mon int) {
 			args[i] = tok.lit
 		}
 	}
-	needSnap := mon&(monG2|monG5) != 0
+	needSnap := mon&(monG2|monG5|monG9) != 0
+	versionBefore := cs.ds.dataObjectNumber
 	var before [5]vKeySnap
 	if needSnap {
 		for i, k := range vL2Keys {
@@ -326,6 +329,16 @@ func vL3(mon int) {
 	}
 	cs.ds.data.dirty = false
 	var r respValue
+	if mon&monG7 != 0 {
+		unguarded, sections, detail, shared := vMonitoredCmd(cs, kind, args)
+		if unguarded > 0 {
+			vNote(detail)
+		}
+		vAssert("G7-no-store-access-outside-a-guarded-section", unguarded == 0)
+		vAssert("G7-one-guarded-section-per-command", sections <= 1)
+		vAssert("no-unguarded-write-to-shared-start-up-tables", shared == "")
+		return
+	}
 	panicked, msg := vCatch(func() { r = vCmd(cs, args...) })
 	if mon&monG8 != 0 {
 		vAssert("G8-no-panic", !panicked)
@@ -338,9 +351,20 @@ func vL3(mon int) {
 		return
 	}
 	unchanged := true
+	var after [5]vKeySnap
 	if needSnap {
 		for i, k := range vL2Keys {
-			unchanged = vAnd(unchanged, vSnapEq(before[i], vSnapKey(cs, k)))
+			after[i] = vSnapKey(cs, k)
+			unchanged = vAnd(unchanged, vSnapEq(before[i], after[i]))
+		}
+	}
+	if mon&monG9 != 0 {
+		for i := range vL2Keys {
+			if !after[i].exists {
+				continue
+			}
+			same := vAnd(vSnapEq(before[i], after[i]), before[i].id == after[i].id)
+			vAssert("G9-changed-key-carries-a-fresh-version", vOr(same, after[i].id > versionBefore))
 		}
 	}
 	if mon&monG2 != 0 && vIsErr(r) {
@@ -362,3 +386,12 @@ func VerifH_c13_l3() { vL3(monG8) }
 
 // VerifH_c06_l3: grammar-derived templates under G2/G3/G4/G8.
 func VerifH_c06_l3() { vL3(monG2 | monG34 | monG8) }
+
+// VerifH_c08_l3: grammar-derived templates under the lock-set monitor.
+func VerifH_c08_l3() { vL3(monG7) }
+
+// VerifH_c10_l3_fresh: the version-stamp invariant over grammar-derived templates.
+func VerifH_c10_l3_fresh() { vL3(monG9) }
+
+// VerifH_c19_l3_dirty: every change marks the store dirty, over grammar-derived templates.
+func VerifH_c19_l3_dirty() { vL3(monG5) }
